@@ -6,10 +6,14 @@ RULE = ("programs: every program of the closure / call (params x variadic x args
         "statement position, in try, accumulator) / assignment-order / destructuring / const-iota / loop-control families and every sequence of 2 (quick: selected 3, thorough: all 3) feature episodes out of 14, each optionally one frame deeper, of "
         "tla/UgoSemFam.tla, expected outcome + side-effect log computed by the TLA+ reference semantics, run on the real compiler+VM "
         "with the optimizer on, off and at budget 1; per-instruction traces of the runs validated by UgoVMTrace.tla; "
+        "scope structures: every valid arrangement of up to two declarations / assignments / reads of a, b and the builtin name len before, inside (with an optional statement at the intermediate level) and after one container out of 7 (block, function, loop body, block in function, function in block, function in function, function called twice); "
         "non-trivial = every program (each exercises one documented rule)")
 
 def run(ctx):
     semcommon.run_sem(ctx, "UgoSemFam_c02" if ctx.quick else "UgoSemFam_c02t", ["default", "noopt"] if ctx.quick else ["default", "noopt", "limit1"], label="c02", sample_every=200, trace_every=2 if ctx.quick else 4)
+    # scope structures, combinatorially (all valid arrangements of declarations / assignments / reads of a, b and the
+    # builtin name len around and inside 7 container shapes)
+    semcommon.run_sem(ctx, "UgoSemFam_scope", ["default", "noopt"], label="scope", sample_every=5000)
     ctx.exhaustive = True
     ctx.assumptions += ["renderer harness/cmd/vh/sem.go maps the AST to uGO source faithfully",
                         "UgoSem.tla is the documented meaning (docs/tutorial.md); values are small ints, strings, bools, arrays, maps, closures"]
